@@ -110,8 +110,11 @@ def resubmit_jobs(output, failed, missing, successful, submission_groups_file, v
 
     jobs_to_resubmit = _get_jobs_to_resubmit(cluster, output, failed, missing, successful)
     updated_blocking_jobs_by_name = _update_with_blocking_jobs(jobs_to_resubmit, output)
-    _reset_results(output, jobs_to_resubmit)
-    cluster.prepare_for_resubmission(jobs_to_resubmit, updated_blocking_jobs_by_name)
+    cluster.prepare_for_resubmission(
+        jobs_to_resubmit,
+        updated_blocking_jobs_by_name,
+        reset_results=lambda: _reset_results(output, jobs_to_resubmit),
+    )
     events_dir = Path(output) / EVENTS_DIR
     # The directory does not exist if reports were not generated.
     if events_dir.exists():
